@@ -67,7 +67,7 @@ fn main_c11(tier: &str, seed: u64, replay: Option<&str>) -> i32 {
         if oracle == "M-memory" {
             let args: Vec<String> = serde_json::from_value(v["mem_args"].clone()).unwrap_or_default();
             let n = v["mem_n"].as_u64().unwrap_or(500) as usize;
-            let (viol, _) = c11::memory_check(&args, n, v["seed"].as_u64().unwrap_or(1), v["mem_long_lines"].as_bool().unwrap_or(false), v["mem_many_files"].as_bool().unwrap_or(false), v["mem_wrap_shapes"].as_bool().unwrap_or(false), v["mem_many_commits"].as_bool().unwrap_or(false));
+            let (viol, _) = c11::memory_check(&args, n, v["seed"].as_u64().unwrap_or(1), v["mem_long_lines"].as_bool().unwrap_or(false), v["mem_many_files"].as_bool().unwrap_or(false), v["mem_wrap_shapes"].as_bool().unwrap_or(false), v["mem_many_commits"].as_bool().unwrap_or(false), v["mem_giant_hunk"].as_bool().unwrap_or(false));
             return match viol {
                 Some(x) => {
                     println!("VIOLATION property=C11 replay={}", path);
@@ -143,11 +143,11 @@ fn main_c11(tier: &str, seed: u64, replay: Option<&str>) -> i32 {
     // one OS process per memory measurement: the regex engine hands its lazily built automata
     // from thread to thread through a pool, so in a process with other threads the thread that
     // happens to grow such a cache is charged for it; a process with a single thread is exact
-    let mem: Vec<(Option<Violation>, serde_json::Value)> = par_map(if worddiff { 0 } else { mem_cfgs.len() * 5 }, &|j| {
-        let i = j / 5;
-        let (long, many, wrap, commits) = (j % 5 == 1, j % 5 == 2, j % 5 == 3, j % 5 == 4);
+    let mem: Vec<(Option<Violation>, serde_json::Value)> = par_map(if worddiff { 0 } else { mem_cfgs.len() * 6 }, &|j| {
+        let i = j / 6;
+        let (long, many, wrap, commits, giant) = (j % 6 == 1, j % 6 == 2, j % 6 == 3, j % 6 == 4, j % 6 == 5);
         let nn = (if long { mem_n / 10 } else if wrap { mem_n / 3 } else { mem_n }).max(50);
-        let spec = json!({"mem_args": mem_cfgs[i], "mem_n": nn, "seed": seed, "mem_long_lines": long, "mem_many_files": many, "mem_wrap_shapes": wrap, "mem_many_commits": commits});
+        let spec = json!({"mem_args": mem_cfgs[i], "mem_n": nn, "seed": seed, "mem_long_lines": long, "mem_many_files": many, "mem_wrap_shapes": wrap, "mem_many_commits": commits, "mem_giant_hunk": giant});
         let out = std::process::Command::new(std::env::current_exe().unwrap()).args(["C11-mem", &spec.to_string()]).output();
         match out {
             Ok(o) if o.status.success() => {
@@ -234,14 +234,14 @@ fn main_c11(tier: &str, seed: u64, replay: Option<&str>) -> i32 {
     }
     let mut mem_samples = Vec::new();
     for (j, (v, info)) in mem.iter().enumerate() {
-        let i = j / 5;
+        let i = j / 6;
         mem_samples.push(info.clone());
         if let Some(x) = v {
             if let Some(k) = known.matches("C11", x) {
                 known_hit.entry(k.signature.clone()).or_insert((k.what.clone(), 0)).1 += 1;
                 continue;
             }
-            let path = write_replay("C11", &format!("M-memory-{}", j), &json!({"property": "C11", "engine": "E2-inproc", "seed": seed, "oracle": "M-memory", "signature": x.signature, "message": x.message, "mem_args": mem_cfgs[i], "mem_n": if j % 5 == 1 { (mem_n / 10).max(50) } else if j % 5 == 3 { (mem_n / 3).max(50) } else { mem_n }, "mem_long_lines": j % 5 == 1, "mem_many_files": j % 5 == 2, "mem_wrap_shapes": j % 5 == 3, "mem_many_commits": j % 5 == 4}));
+            let path = write_replay("C11", &format!("M-memory-{}", j), &json!({"property": "C11", "engine": "E2-inproc", "seed": seed, "oracle": "M-memory", "signature": x.signature, "message": x.message, "mem_args": mem_cfgs[i], "mem_n": if j % 6 == 1 { (mem_n / 10).max(50) } else if j % 6 == 3 { (mem_n / 3).max(50) } else { mem_n }, "mem_long_lines": j % 6 == 1, "mem_many_files": j % 6 == 2, "mem_wrap_shapes": j % 6 == 3, "mem_many_commits": j % 6 == 4, "mem_giant_hunk": j % 6 == 5}));
             println!("VIOLATION property=C11 replay={}", path.display());
             println!("  oracle={} {}", x.oracle, x.message);
             exit = 1;
@@ -329,7 +329,7 @@ fn main() {
             // one memory measurement (oracle M), alone in this process; result as JSON on stdout
             let v: serde_json::Value = args.get(2).and_then(|t| serde_json::from_str(t).ok()).unwrap_or(json!({}));
             let margs: Vec<String> = serde_json::from_value(v["mem_args"].clone()).unwrap_or_default();
-            let (viol, info) = c11::memory_check(&margs, v["mem_n"].as_u64().unwrap_or(300) as usize, v["seed"].as_u64().unwrap_or(1), v["mem_long_lines"].as_bool().unwrap_or(false), v["mem_many_files"].as_bool().unwrap_or(false), v["mem_wrap_shapes"].as_bool().unwrap_or(false), v["mem_many_commits"].as_bool().unwrap_or(false));
+            let (viol, info) = c11::memory_check(&margs, v["mem_n"].as_u64().unwrap_or(300) as usize, v["seed"].as_u64().unwrap_or(1), v["mem_long_lines"].as_bool().unwrap_or(false), v["mem_many_files"].as_bool().unwrap_or(false), v["mem_wrap_shapes"].as_bool().unwrap_or(false), v["mem_many_commits"].as_bool().unwrap_or(false), v["mem_giant_hunk"].as_bool().unwrap_or(false));
             println!("{}", json!({"violation": viol.map(|x| json!({"signature": x.signature, "message": x.message})), "info": info}));
             0
         }
